@@ -22,13 +22,13 @@ var vErrShort = errors.New("short write")
 // It is a Flusher but neither a Hijacker nor a Pusher.
 type vSpy struct {
 	hdr          http.Header
-	headers      int  // WriteHeader calls received
-	firstCode    int  // code of the first one
-	bytes        int  // body bytes accepted
-	writes       int  // Write calls received
+	headers      int // WriteHeader calls received
+	firstCode    int // code of the first one
+	bytes        int // body bytes accepted
+	writes       int // Write calls received
 	flushes      int
-	bodyBeforeHd bool // a Write/Flush arrived while headers == 0
-	shortWrites  bool // Write may accept fewer bytes than offered (with an error)
+	bodyBeforeHd bool   // a Write/Flush arrived while headers == 0
+	shortWrites  bool   // Write may accept fewer bytes than offered (with an error)
 	body         []byte // the bytes accepted, in order
 }
 
@@ -174,7 +174,7 @@ func VH_C13_kstep() {
 // Covers operation sequences of any length (k-step shows Inv is not vacuous).
 func VH_C13_step() {
 	method := vx.String(4)
-	sent := vx.Bool()          // a status has been sent already
+	sent := vx.Bool()           // a status has been sent already
 	status0 := vx.Int(100, 999) // ... this one
 	size0 := vx.Int(0, 1<<20)
 	nhooks := vx.Int(0, 3) // hooks registered and not yet run (only possible while !sent)
